@@ -525,12 +525,14 @@ func vtRunCaseBody(r *vtRun) []string {
 		um := toolutils.WithUnmarshalArguments(func(_ context.Context, a string) (interface{}, error) { return a, nil })
 		ms := toolutils.WithMarshalOutput(func(_ context.Context, o interface{}) (string, error) { return o.(string), nil })
 		info := &schema.ToolInfo{Name: t.Name, Desc: "verif tool"}
+		// in the Invoke form a tool with both forms is used through its invokable form only
+		invForm := t.Kind == "inv" || (t.Kind == "both" && c.Mode == "invoke")
 		switch {
-		case t.Kind == "inv" && c.Wrap && c.JSONArg && t.Name == "tb":
+		case invForm && c.Wrap && c.JSONArg && t.Name == "tb":
 			bts = append(bts, toolutils.NewTool(info, func(_ context.Context, a map[string]string) (string, error) {
 				return r.invokable(t.Name, vtCanon(a["v"], a["o"]), t.Beh, false)
 			}, ms))
-		case t.Kind == "inv" && c.Wrap && c.JSONArg:
+		case invForm && c.Wrap && c.JSONArg:
 			bts = append(bts, toolutils.NewTool(info, func(_ context.Context, a *vtIn) (string, error) {
 				return r.invokable(t.Name, vtCanon(a.V, a.O), t.Beh, false)
 			}, ms))
@@ -672,6 +674,13 @@ func vtRunCaseBody(r *vtRun) []string {
 	defer r.mu.Unlock()
 	if r.gone {
 		return r.lines
+	}
+	if r.sink != nil {
+		// serial mode (entered after a process crash): give goroutines the library left behind a moment, so that a delayed
+		// crash still falls inside the case that caused it
+		r.mu.Unlock()
+		time.Sleep(2 * time.Millisecond)
+		r.mu.Lock()
 	}
 	last := `{"ev":"end","forced":` + vtJSON(forced) + `,"note":` + vtJSON(note) + `}`
 	r.lines = append(r.lines, last)
